@@ -159,6 +159,74 @@ theorem completion_complete (rs : List Nat) (ws : List Str) (q : Str) (n b : Nat
   rw [hc, hlen, hs, joinHy_snoc]
   split <;> simp
 
+/-! ## sessions: the same wordlist object / helper / readline front-end asked again and again
+
+The user asks for completions, goes back, changes an EARLIER word (or the letters of the last one, or only the
+case), and asks again.  Every answer of the session must be the answer to the text on the line at that moment.
+In the model this is immediate — `getCompletions` is a function of its two arguments and neither `Input` nor
+`CodeInputter` keeps anything between queries — and that is the point: the correspondence compares the real
+objects' answer to EVERY query of a session with these pure answers, so a memo whose key forgets part of the
+text (word position + partial word, `len(prefix)`, the last word only, the text without the nameplate) shows
+up as a disagreement, and `stale_completion_does_not_extend` says why it is then also a violation. -/
+
+/-- the answer to a query is the same whatever the same wordlist object was asked before it -/
+theorem completions_depend_only_on_prefix (before before' : List (Nat × Str)) (n : Nat) (p : Str) :
+    (gcSession (before ++ [(n, p)])).getLast? = some (getCompletions p n) ∧
+    (gcSession (before ++ [(n, p)])).getLast? = (gcSession (before' ++ [(n, p)])).getLast? := by
+  simp [gcSession]
+
+/-- every answer of a session, not only the first one for a given position and partial word -/
+theorem session_answers_pointwise (qs : List (Nat × Str)) (i : Nat) :
+    (gcSession qs)[i]? = qs[i]?.map fun q => getCompletions q.2 q.1 := by
+  simp [gcSession]
+
+/-- an answer computed for one text is useless for another text at the same word position unless everything
+    before the partial word is the same: if `p` and `p'` have the same number of hyphens but differ in an
+    earlier word, NO completion of `p` extends `p'` -/
+theorem stale_completion_does_not_extend (p p' : Str) (n : Nat) (c : Str)
+    (h : c ∈ getCompletions p n) (hk : p.count 45 = p'.count 45) (hs : stemOf p ≠ stemOf p') : ¬ p' <+: c := by
+  intro hp
+  have h0 : stemOf p' <+: p' := ⟨lastPart p', stem_append_last p'⟩
+  have h1 : stemOf p' <+: c := h0.trans hp
+  exact hs (stem_eq_of_common_extension hk (stem_prefix_of_mem_getCompletions h) h1)
+
+/-- so two texts at the same word position that are offered even one common completion have the same
+    earlier words: the least a memo key must contain -/
+theorem shared_completion_same_stem (p p' : Str) (n n' : Nat) (c : Str)
+    (h : c ∈ getCompletions p n) (h' : c ∈ getCompletions p' n') (hk : p.count 45 = p'.count 45) :
+    stemOf p = stemOf p' :=
+  stem_eq_of_common_extension hk (stem_prefix_of_mem_getCompletions h) (stem_prefix_of_mem_getCompletions h')
+
+/-- through the helper, in ANY state of Input (so after any history of earlier queries and other calls):
+    `get_word_completions(p)` that returns normally returns nothing while the wordlist has not arrived, and
+    exactly `get_completions(p)` afterwards -/
+theorem helper_completions_depend_only_on_prefix (isD : Nat → Bool) (s s' : St) (p : Str) (l : List Str)
+    (h : step isD s (.hWordCompl p) = (s', none)) (hl : s'.ret = some l) :
+    (s.inp = .S2_typing_code_no_wordlist ∧ l = []) ∨
+    (s.inp = .S3_typing_code_yes_wordlist ∧ l = getCompletions p 2) :=
+  wordCompl_exact isD s s' p l h hl
+
+/-- two histories that leave Input in the same phase get the same answer to the same text -/
+theorem helper_completions_history_independent (isD : Nat → Bool) (evs evs' : List Ev) (p : Str) (s1 s2 : St)
+    (l1 l2 : List Str)
+    (h1 : step isD (run isD init evs) (.hWordCompl p) = (s1, none)) (hl1 : s1.ret = some l1)
+    (h2 : step isD (run isD init evs') (.hWordCompl p) = (s2, none)) (hl2 : s2.ret = some l2)
+    (hi : (run isD init evs).inp = (run isD init evs').inp) : l1 = l2 := by
+  rcases wordCompl_exact isD _ s1 p l1 h1 hl1 with ⟨a, rfl⟩ | ⟨a, rfl⟩ <;>
+    rcases wordCompl_exact isD _ s2 p l2 h2 hl2 with ⟨b, rfl⟩ | ⟨b, rfl⟩
+  · rfl
+  · rw [hi, b] at a; cases a
+  · rw [hi, b] at a; cases a
+  · rfl
+
+/-- at the readline prompt, in ANY state of the front-end (after any edit history): a TAB on a line with a
+    hyphen that is answered at all is answered with nothing (wordlist not there) or with exactly the sorted
+    `nameplate-` + `get_completions(words)` of the line as it is now -/
+theorem rl_completions_depend_only_on_line (isD : Nat → Bool) (r r' : Rl) (text np words : Str) (l : List Str)
+    (hp : parseText text = some (np, words)) (h : rlTab isD r text = (r', .ok l)) :
+    l = [] ∨ l = sortStrs ((getCompletions words 2).map fun c => np ++ 45 :: c) :=
+  rlTab_exact isD r r' text np words l hp h
+
 /-! ## malformed codes -/
 
 /-- exactly which codes `set_code` lets through (for the regex now in the tree) -/
@@ -375,6 +443,18 @@ example : (run isNd init [.inputCode]).inp = .S1_typing_nameplate ∧
 /-- "armistice-bab" completes to "armistice-baboon" only -/
 example : getCompletions [97,114,109,105,115,116,105,99,101,45,98,97,98] 2 =
     [[97,114,109,105,115,116,105,99,101,45,98,97,98,111,111,110]] := by decide +kernel
+
+/-- the seeded session: "armistice-ba", then "article-ba" on the same object.  The second answer is the one for
+    "article-ba"; the hypotheses of `stale_completion_does_not_extend` hold for the pair (same position, other
+    first word) and "armistice-baboon" is a completion of the first -/
+example : (gcSession [(2, [97,114,109,105,115,116,105,99,101,45,98,97]), (2, [97,114,116,105,99,108,101,45,98,97])])[1]? =
+    some (getCompletions [97,114,116,105,99,108,101,45,98,97] 2) := by
+  rw [session_answers_pointwise]; rfl
+
+example : ([97,114,109,105,115,116,105,99,101,45,98,97] : Str).count 45 = ([97,114,116,105,99,108,101,45,98,97] : Str).count 45 ∧
+    stemOf [97,114,109,105,115,116,105,99,101,45,98,97] ≠ stemOf [97,114,116,105,99,108,101,45,98,97] ∧
+    [97,114,109,105,115,116,105,99,101,45,98,97,98,111,111,110] ∈ getCompletions [97,114,109,105,115,116,105,99,101,45,98,97] 2 := by
+  decide +kernel
 
 /-- the hypotheses of `completion_acceptable`: bytes [11] give "armistice", partial word "bab" -/
 example : chooseListFrom 0 [11] = some [[97,114,109,105,115,116,105,99,101]] ∧ 45 ∉ [98, 97, 98] := by decide +kernel
